@@ -188,3 +188,232 @@ func freshError(v ssa.Value, depth int) bool {
 	}
 	return false
 }
+
+// R7.10 — characters are classified at full width. A scanner that converts a character (rune) to a
+// narrower integer — to index a 256-entry table, say — sees only its low bits: U+2020 becomes a
+// space. Every conversion of a rune-typed value to a narrower integer type in the tokenizers and
+// the escape reader must be proven in range by the interval analysis (a dominating `c < 0x80`-style
+// test, a constant, a masked value).
+func c7CharacterNarrowing(p *Prog, r *Report) {
+	const rule = "R7.10-character-narrowing"
+	pkgs := map[string]bool{pParser: true, pSchemaPar: true, pRust: true}
+	scope := func(f *ssa.Function) bool { return pkgs[fnPkgPath(f)] && len(f.Blocks) > 0 }
+	e := newIvEngine(p, scope)
+	var fns []*ssa.Function
+	for _, fn := range p.Funcs {
+		if scope(fn) && fn.Synthetic == "" {
+			fns = append(fns, fn)
+		}
+	}
+	sort.Slice(fns, func(i, j int) bool { return fns[i].String() < fns[j].String() })
+	n := 0
+	for _, fn := range fns {
+		var convs []*ssa.Convert
+		forEachInstr(fn, func(in ssa.Instruction) {
+			c, ok := in.(*ssa.Convert)
+			if !ok {
+				return
+			}
+			from, to := kindOfType(c.X.Type()), kindOfType(c.Type())
+			if !from.ok || !to.ok || from.float || to.float {
+				return
+			}
+			fb, ok1 := c.X.Type().Underlying().(*types.Basic)
+			if !ok1 || fb.Kind() != types.Int32 {
+				return // only characters: rune is int32
+			}
+			if to.bits >= from.bits {
+				return // same width or wider: no bits are lost
+			}
+			if _, isC := c.X.(*ssa.Const); isC {
+				return
+			}
+			convs = append(convs, c)
+		})
+		if len(convs) == 0 {
+			continue
+		}
+		a := e.analyze(fn, nil)
+		for _, c := range convs {
+			n++
+			iv := a.get(c.X, c.Block())
+			to := kindOfType(c.Type())
+			q := fnQual(fn) + ":" + types.TypeString(c.Type(), nil)
+			if to.contains(iv) {
+				r.OK(rule, q, p.pos(c.Pos()), "the character is in "+iv.String()+" where it is narrowed")
+			} else {
+				r.Viol(rule, q, p.pos(c.Pos()), fnShort(fn)+" narrows a character to "+types.TypeString(c.Type(), nil)+" although it can be anything in "+iv.String()+" there: characters that differ only above the low bits are classified alike (U+2020 as a space, U+0141 as 'A'), so text outside the grammar is accepted or read as something else")
+			}
+		}
+	}
+	if n == 0 {
+		r.OK(rule, "tokenizers:no-narrowing", "-", "no character is converted to a narrower integer type in the tokenizers and the escape reader")
+	}
+}
+
+// R7.11 — a nesting counter is balanced. A parser that counts how deep it is (to bound recursion)
+// increments a member on entry and decrements it on exit; if some path that reports success leaves
+// the function without the decrement, the counter creeps up with every such construct and the depth
+// limit starts rejecting perfectly flat input. For every integer member that a function of the
+// parsers both increments and decrements (here or in a deferred closure): every return that can
+// report success and is reachable from the increment passes a decrement first.
+func c7BalancedCounters(p *Prog, r *Report) {
+	const rule = "R7.11-balanced-depth"
+	pkgs := map[string]bool{pParser: true, pSchemaPar: true}
+	var fns []*ssa.Function
+	for _, fn := range p.Funcs {
+		if pkgs[fnPkgPath(fn)] && len(fn.Blocks) > 0 && fn.Parent() == nil {
+			fns = append(fns, fn)
+		}
+	}
+	sort.Slice(fns, func(i, j int) bool { return fns[i].String() < fns[j].String() })
+	// step(st, +1/-1): a store of member±1 into the same member of the receiver / a parameter
+	step := func(in ssa.Instruction) (field int, base ssa.Value, delta int, ok bool) {
+		st, isSt := in.(*ssa.Store)
+		if !isSt {
+			return
+		}
+		fa, isFA := st.Addr.(*ssa.FieldAddr)
+		if !isFA {
+			return
+		}
+		bo, isBO := st.Val.(*ssa.BinOp)
+		if !isBO || (bo.Op != token.ADD && bo.Op != token.SUB) {
+			return
+		}
+		k, isK := constInt(bo.Y)
+		if !isK || k != 1 {
+			return
+		}
+		f2, b2, isLd := fieldOfLoad(bo.X)
+		if !isLd || f2 != fa.Field || b2 != fa.X {
+			return
+		}
+		d := 1
+		if bo.Op == token.SUB {
+			d = -1
+		}
+		return fa.Field, fa.X, d, true
+	}
+	n := 0
+	for _, fn := range fns {
+		type key struct {
+			f int
+			b ssa.Value
+		}
+		incs := map[key][]ssa.Instruction{}
+		decs := map[key]map[*ssa.BasicBlock][]ssa.Instruction{}
+		deferredDec := map[int]bool{}
+		for _, g := range withAnon(fn) {
+			forEachInstr(g, func(in ssa.Instruction) {
+				f, b, d, ok := step(in)
+				if !ok {
+					return
+				}
+				if g != fn {
+					if d < 0 {
+						deferredDec[f] = true
+					}
+					return
+				}
+				k := key{f, b}
+				if d > 0 {
+					incs[k] = append(incs[k], in)
+				} else {
+					if decs[k] == nil {
+						decs[k] = map[*ssa.BasicBlock][]ssa.Instruction{}
+					}
+					decs[k][in.Block()] = append(decs[k][in.Block()], in)
+				}
+			})
+		}
+		for k, is := range incs {
+			hasDefer := false
+			if deferredDec[k.f] {
+				forEachInstr(fn, func(in ssa.Instruction) {
+					if _, ok := in.(*ssa.Defer); ok {
+						hasDefer = true
+					}
+				})
+			}
+			if len(decs[k]) == 0 && !hasDefer {
+				continue // a plain counter (position, count), not a nesting depth
+			}
+			n++
+			q := fnQual(fn) + ":" + fieldNameAt(k.b, k.f)
+			if hasDefer {
+				r.OK(rule, q, p.pos(fn.Pos()), "the decrement is deferred")
+				continue
+			}
+			bad := ""
+			for _, inc := range is {
+				// walk forward from the increment; stop at decrements
+				type pt struct {
+					b   *ssa.BasicBlock
+					idx int
+				}
+				seen := map[*ssa.BasicBlock]bool{}
+				var walk func(b *ssa.BasicBlock, from int)
+				walk = func(b *ssa.BasicBlock, from int) {
+					for i := from; i < len(b.Instrs); i++ {
+						in := b.Instrs[i]
+						if _, _, d, ok := step(in); ok && d < 0 {
+							if f, bb, _, _ := step(in); f == k.f && bb == k.b {
+								return
+							}
+						}
+						if ret, ok := in.(*ssa.Return); ok {
+							ev := ssa.Value(nil)
+							if len(ret.Results) > 0 {
+								ev = ret.Results[len(ret.Results)-1]
+							}
+							errOnly := false
+							if ev != nil && isErrorType(ev.Type()) {
+								if c, isC := ev.(*ssa.Const); isC && !c.IsNil() {
+									errOnly = true
+								}
+								if freshError(ev, 0) {
+									errOnly = true
+								}
+								for _, g := range guardsAt(b) {
+									if nn, isT := nilTest(g, ev); isT && nn {
+										errOnly = true
+									}
+								}
+							}
+							if !errOnly {
+								bad = p.pos(ret.Pos())
+							}
+							return
+						}
+					}
+					for _, s := range b.Succs {
+						if !seen[s] {
+							seen[s] = true
+							walk(s, 0)
+						}
+					}
+				}
+				idx := 0
+				for i, in := range inc.Block().Instrs {
+					if in == inc {
+						idx = i + 1
+					}
+				}
+				walk(inc.Block(), idx)
+			}
+			r.Check(bad == "", rule, q, p.pos(fn.Pos()), "every return that can report success passes the decrement",
+				fnShort(fn)+" increments "+fieldNameAt(k.b, k.f)+" on entry but the return at "+bad+" can report success without decrementing it: the counter creeps up with every construct parsed on that path, and the limit it guards starts rejecting input that is not deeply nested at all")
+		}
+	}
+	if n == 0 {
+		r.OK(rule, "parsers:no-nesting-counter", "-", "no member of the parsers is both incremented and decremented by one function (no nesting counter to balance)")
+	}
+}
+
+func fieldNameAt(base ssa.Value, f int) string {
+	if st := structOf(base.Type()); st != nil && f < st.NumFields() {
+		return st.Field(f).Name()
+	}
+	return "member#" + itoa(f)
+}
